@@ -814,8 +814,10 @@ def exCond : Cond := .pred ⟨.col ⟨[], [97]⟩, Generated.t_GT, .lit (.int 0)
 
 def exFields : List Field := [⟨[116], [97]⟩, ⟨[116], [98]⟩]
 
--- `filterRows_ok`: every evaluation succeeds except on the NULL row, where `>` is an error
-example : filterRows exCond exFields exRows = .err .nothingToCompare := rfl
+-- `filterRows_ok`: every evaluation succeeds; on the NULL row `>` is false (it was an error until
+-- the repair of the ordering comparisons on NULL), so that row is not selected
+example : filterRows exCond exFields exRows =
+    .ok [[.int 3, .str [98]], [.int 1, .str [97, 98]], [.int 3, .str [97]]] := rfl
 example : filterRows exCond exFields [[.int 3, .str [98]], [.int (-2), .str []], [.int 1, .str [97, 98]]]
     = .ok [[.int 3, .str [98]], [.int 1, .str [97, 98]]] := rfl
 example : ∀ r ∈ ([[.int 3, .str [98]], [.int (-2), .str []]] : List Row),
